@@ -411,6 +411,17 @@ int main(void)
 			mpt_gnode_swap(a, b);
 			result("ok", "-");
 		}
+		else if (!strcmp(op, "switch") && drv_nw == 4) {
+			MPT_STRUCT(node) *t;
+			int below = 0;
+			if (get_tok(drv_w[2], &a) < 0 || get_tok(drv_w[3], &b) < 0) { puts("bad-op"); continue; }
+			/* neither may lie below the other */
+			for (t = a->parent; t; t = t->parent) if (t == b) below = 1;
+			for (t = b->parent; t; t = t->parent) if (t == a) below = 1;
+			if (below) { result("precond", "-"); continue; }
+			mpt_gnode_switch(a, b);
+			result("ok", "-");
+		}
 		else if (!strcmp(op, "relink") && (drv_nw == 3 || (drv_nw == 4 && !strcmp(drv_w[3], "scramble")))) {
 			if (get_tok(drv_w[2], &a) < 0) { puts("bad-op"); continue; }
 			/* "restore node links": parent and predecessor links below the node follow from the child and successor links */
